@@ -10,7 +10,10 @@ from r_bracket import walk, region_index_type
 PRESERVING = {("Vec", "as_slice"), ("array", "as_slice"), ("String", "as_str"), ("str", "as_bytes"),
               ("Deref", "deref"), ("AsRef", "as_ref"), ("Borrow", "borrow"), ("slice", "iter"),
               ("Iterator", "copied"), ("Iterator", "cloned"), ("IntoIterator", "into_iter"),
-              ("Vec", "as_ref"), ("String", "as_ref")}
+              ("Vec", "as_ref"), ("String", "as_ref"),
+              # owning conversions that keep every element, in order
+              ("slice", "into_vec"), ("Cow", "into_owned"), ("slice", "to_vec"), ("Box", "into_vec"),
+              ("str", "into_string"), ("String", "into_boxed_str"), ("Vec", "into_boxed_slice")}
 PRESERVING_FNITEMS = ("as_slice", "as_str", "as_bytes", "deref", "as_ref", "borrow")
 
 
@@ -135,6 +138,10 @@ def signature(F, cat, b):
             kinds.add("bracket")
         elif t[0] == "agg" and t[1] == "tuple" and len(t[2]) == 2 and t[2][0] == t[2][1] and t[2][0][0] == "place":
             kinds.add("bits")
+        elif t[0] == "agg" and t[1] == "tuple" and len(t[2]) == 2 and all(
+                (x[0] == "place" and x[2] == ("arg", 1)) or
+                (x[0] == "call" and x[1][1] == "len" and x[2] and x[2][0][0] == "place" and x[2][0][2] == ("arg", 1)) for x in t[2]):
+            pass  # (end, end) over the representations: the empty range at the current end (R-BRACKET judges it)
         elif t[0] == "bin":
             kinds.add("position")
         elif t[0] == "call" and t[1] == ("Push", "push") and t[2] and t[2][0][0] == "place" and \
